@@ -316,6 +316,66 @@ Section Index.
     end.
   Definition op_wf (op : gop) : Prop :=
     match op with GReplace _ obj => NoDup (map fst obj) | GDiscard _ => True end.     (* a Mapping has unique keys *)
+
+  (* ---------- the documented rules, per (event, index function) ---------- *)
+  Inductive rule := RSet (r : result) | RKeep | RDrop.
+  Definition result_map (r : result) : list (K * V) := match r with RMap m => m | RScalar v => [(knone, v)] end.
+  Definition state_of (mem : memory) (h : hcfg) : hstate :=
+    match aget String.eqb (h_id h) mem with Some x => x | None => fresh end.
+  (* deleted -> removed; filter mismatch -> removed; excluded after an error (sleeping / failed for good) -> removed;
+     otherwise by what the invocation gives: result -> set, None or ignored error -> kept, error -> removed *)
+  Definition rule_of (now : Z) (h : hcfg) (mem : memory) (deleted : bool)
+             (matches : string -> bool) (script : string -> action) : rule :=
+    if deleted then RDrop
+    else if negb (matches (h_id h)) then RDrop
+    else let x := state_of mem h in
+         if negb (awakened now x) then RDrop
+         else match fst (exec_once now h x (script (h_id h))) with
+              | OExc => RDrop
+              | ORes r => RSet r
+              | OKeep => RKeep
+              end.
+  Definition rule_spec (o : O) (ru : rule) (R : refmap) : refmap :=
+    match ru with
+    | RSet r => spec_op R (GReplace o (result_map r))
+    | RKeep => R
+    | RDrop => spec_op R (GDiscard o)
+    end.
+  Definition script_wf (script : string -> action) : Prop :=
+    forall h m, script h = AResult (RMap m) -> NoDup (map fst m).        (* a Mapping has unique keys *)
+
+  (* ---------- histories: index_resource per event, memories per object, forgotten on DELETED ---------- *)
+  Record event := mkEvent {
+    e_now : Z; e_deleted : bool; e_obj : O; e_matches : string -> bool; e_script : string -> action
+  }.
+  Definition hist_state := (indexers * (O -> memory))%type.
+  Definition event_run (hs : list hcfg) (st : hist_state) (e : event) : res hist_state :=
+    let (ixs, mems) := st in
+    bind (index_event (e_now e) hs (e_deleted e) (e_obj e) (e_matches e) (e_script e) ixs (mems (e_obj e)))
+         (fun r => Ok (fst r, fun o' => if oeqb o' (e_obj e)
+                                        then (if e_deleted e then [] else snd r)   (* memories.forget() *)
+                                        else mems o')).
+  Fixpoint hist_run (hs : list hcfg) (st : hist_state) (es : list event) : res hist_state :=
+    match es with
+    | [] => Ok st
+    | e :: t => bind (event_run hs st e) (fun st' => hist_run hs st' t)
+    end.
+  (* the retry memory after an event, as index_resource + memories.forget() leave it *)
+  Definition mem_next (hs : list hcfg) (mems : O -> memory) (e : event) : O -> memory :=
+    fun o' => if oeqb o' (e_obj e)
+              then (if e_deleted e then []
+                    else if is_nil hs then mems (e_obj e)
+                    else snd (run_handlers (e_now e) hs (e_matches e) (e_script e) (mems (e_obj e))))
+              else mems o'.
+  (* the reference map of one index function over a history: the documented rule of every event, in order *)
+  Fixpoint rule_hist (hs : list hcfg) (c : hcfg) (mems : O -> memory) (es : list event) (R : refmap) : refmap :=
+    match es with
+    | [] => R
+    | e :: t =>
+        rule_hist hs c (mem_next hs mems e) t
+                  (rule_spec (e_obj e) (rule_of (e_now e) c (mems (e_obj e)) (e_deleted e) (e_matches e) (e_script e)) R)
+    end.
+  Definition init_indexers (hs : list hcfg) : indexers := map (fun c => (h_id c, index_empty)) hs.   (* ensure() *)
 End Index.
 
 Arguments index O K V : clear implicits.
@@ -325,6 +385,9 @@ Arguments outcome K V : clear implicits.
 Arguments action K V : clear implicits.
 Arguments indexers O K V : clear implicits.
 Arguments gop O K V : clear implicits.
+Arguments rule K V : clear implicits.
+Arguments event O K V : clear implicits.
+Arguments hist_state O K V : clear implicits.
 Arguments refmap O K V : clear implicits.
 
 (* ---------- the instance the correspondence check runs ---------- *)
@@ -383,3 +446,25 @@ Definition jxop (ixs : jindexers) (op : xop) : res jindexers :=
   end.
 Definition jevent_eqb (a b : res (jindexers * memory)) : bool :=
   res_eqb (pair_eqb jindexers_eqb memory_eqb) a b.
+
+(* ---------- history-level readings used by the correspondence check ---------- *)
+Definition rule_tag {K V} (ru : rule K V) : nat := match ru with RSet _ => 0 | RKeep => 1 | RDrop => 2 end.
+Definition jrule_of := @rule_of ikey json.
+Definition jhist_run := @hist_run nat ikey json Nat.eqb ikey_eqb py_eqb KNone.
+Definition jrule_hist := @rule_hist nat ikey json Nat.eqb ikey_eqb py_eqb KNone.
+Definition jevent (now : Z) (del : bool) (o : nat) (ms : list string) (sc : list (string * action ikey json)) : event nat ikey json :=
+  mkEvent now del o (fun h => lmem String.eqb h ms) (script_of ANone sc).
+(* the whole history through the model from the start state vs the final indexers and memories of the implementation *)
+Definition jhist_check (hs : list hcfg) (es : list (event nat ikey json)) (objs : list nat)
+           (ixs : jindexers) (mems : list (nat * memory)) : bool :=
+  match jhist_run hs (init_indexers hs, fun _ => []) es with
+  | Ok (ixs', mems') =>
+      jindexers_eqb ixs' ixs
+      && forallb (fun o => memory_eqb (mems' o) (match aget Nat.eqb o mems with Some m => m | None => [] end)) objs
+  | _ => false
+  end.
+(* the reference map of the documented rules vs what the implementation's index holds, probe by probe *)
+Definition jref_check (hs : list hcfg) (es : list (event nat ikey json))
+           (probes : list (hcfg * (nat * (ikey * option json)))) : bool :=
+  forallb (fun p => let '(c, (o, (k, v))) := p in
+                    opt_eqb jeqb (jrule_hist hs c (fun _ => []) es (fun _ _ => None) o k) v) probes.
